@@ -18,6 +18,8 @@ A *spec* is a small JSON-able description of a circuit:
   stmt   = {"k":"call","m":name,"en":k|None,"arg":dk|None}     m = leaf / user method / "cn0.write" / "cn0.read"
          | {"k":"cond","nb":0|1,"prio":0|1,"branches":[{"c":k|None,"block":[stmt]}]}   c=None: default branch
          | {"k":"trans","name","ready":k|None,"block":[stmt]}  (a transaction nested in the enclosing body)
+         | {"k":"if"|"switch"|"fsm", … "items":[stmt]}          (calls written inside m.If/Elif/Else, m.Switch/Case,
+                                                                 m.FSM/State in the body; same fields as the top-level form)
 
 `build(spec)` interprets it with the REAL API (`TModule`, `Transaction().body`, `def_method`,
 `condition`, `Connect`, `.simultaneous`), elaborates the user circuit and then the real
@@ -130,6 +132,30 @@ def alt_guards(item: dict) -> list:
         nbits = (len(item["states"]) - 1).bit_length()
         for i, st in enumerate(item["states"]):
             out.append((_sel_is(item["sel"][:nbits], i), st["items"]))
+    return out
+
+
+def inner_blocks(s: dict) -> list:
+    """the statement lists of the alternatives of a control structure written inside a body"""
+    if s["k"] == "if":
+        return [a["items"] for a in s["alts"]]
+    if s["k"] == "switch":
+        return [c["items"] for c in s["cases"]]
+    if s["k"] == "fsm":
+        return [st["items"] for st in s["states"]]
+    return []
+
+
+def calls_of(block: list) -> list:
+    """call statements written directly in a body, including those inside If/Switch/FSM alternatives (not those of
+    nested bodies / condition branches)"""
+    out = []
+    for s in block:
+        if s["k"] == "call":
+            out.append(s)
+        else:
+            for blk in inner_blocks(s):
+                out += calls_of(blk)
     return out
 
 
@@ -252,10 +278,11 @@ class SimulTop(Elaboratable):
         s["_use"] = u
 
     def _items(self, m, guard, items):
-        self.guard = guard
+        prev = self.guard
+        self.guard = g_and(prev, guard)
         for it in items:
             getattr(self, "s_" + it["k"])(m, it)
-        self.guard = None
+        self.guard = prev
 
     def s_if(self, m, s):
         guards = alt_guards(s)
@@ -363,6 +390,10 @@ def _path(cp, modmap):
     return modmap(cp.module), [[e.alt, e.par] for e in cp.path]
 
 
+class RealCodeError(Exception):
+    """the real library raised where a well-formed design must elaborate: an observation about the implementation"""
+
+
 def build(spec: dict) -> Built:
     spec = json.loads(json.dumps(spec))  # private copy (the builder annotates statements)
     dm = DependencyManager()
@@ -375,7 +406,10 @@ def build(spec: dict) -> Built:
     with DependencyContext(dm):
         b.top = SimulTop(spec)
         b.tm = TransactionManager(recording_scheduler)
-        b.fragment = Fragment.get(b.top, None)
+        try:
+            b.fragment = Fragment.get(b.top, None)
+        except Exception as e:  # noqa: BLE001 - the real code raised while the user circuit was elaborated
+            raise RealCodeError(f"{type(e).__name__}: {' '.join(str(e).split())[:200]} (while elaborating the user circuit)") from e
         _extract_pre(b)
         try:
             b.tm_fragment = Fragment.get(b.tm, None)
@@ -545,6 +579,9 @@ def _static_callees(spec: dict) -> dict:
                     walk(f"u{u}b{k}", br["block"], ctr)
             elif s["k"] == "trans":
                 walk(s["name"], s["block"], ctr)
+            else:
+                for blk in inner_blocks(s):
+                    walk(name, blk, ctr)
 
     for it, _ in flat_items(spec):
         walk(it["name"], it["block"], None)
@@ -859,13 +896,17 @@ def gen_c12(rng: random.Random, kind: str, P: Optional[dict] = None) -> dict:
     P = {**DEFAULT_P, **(P or {})}
     g = _Gen(rng, P)
     if kind == "free":
-        kind = rng.choice(["basic", "basic", "method1", "methodN", "nested", "two", "chain"])
+        kind = rng.choice(["basic", "basic", "method1", "methodN", "nested", "two", "chain", "deep", "guardcall"])
     if kind == "nested":
         g.P = {**P, "p_nest": 0.9, "max_nest": rng.choice([1, 1, 2])}
     else:
         g.P = {**P, "p_nest": 0.12}
     if kind == "chain":
         _gen_chain(g, rng, P)
+    elif kind == "deep":
+        _gen_deep(g, rng, P)
+    elif kind == "guardcall":
+        _gen_guardcall(g, rng, P)
     elif kind in ("basic", "nested", "two"):
         blk = g.calls(0, 2, 0.2)
         blk.insert(rng.randint(0, len(blk)), g.cond(0))
@@ -897,7 +938,68 @@ def _gen_chain(g: "_Gen", rng: random.Random, P: dict):
     _chain_above(g, rng, P, host, [2, 2, 3])
 
 
-def _chain_above(g: "_Gen", rng: random.Random, P: dict, host: str, link_choices: list):
+def _gen_deep(g: "_Gen", rng: random.Random, P: dict):
+    """a branch of a condition() in method `outer` calls (through one or two plain methods) a method `leaf` that
+    contains a condition() of its own; `outer` is reached through a call chain with conditional links"""
+    g.P = {**g.P, "p_nest": 0.0, "n_branches": [1, 2, 2]}
+    leaf = g.mname()
+    blk = g.calls(0, 1, 0.0)
+    lc = g.cond(0)
+    blk.insert(rng.randint(0, len(blk)), lc)
+    g.items.append({"k": "method", "name": leaf, "ready": g.maybe_inp(0.4), "nx": 0, "block": blk})
+    callee = leaf
+    for _ in range(rng.choice([1, 1, 2])):
+        mid = g.mname()
+        mb = g.calls(0, 1, 0.0)
+        mb.insert(rng.randint(0, len(mb)), {"k": "call", "m": callee, "en": None, "arg": None})
+        g.items.append({"k": "method", "name": mid, "ready": g.maybe_inp(0.4), "nx": 0, "block": mb})
+        callee = mid
+    outer = g.mname()
+    oc = g.cond(0, allow_prio=not lc["prio"])  # two priority conditions in one merged transaction are rejected
+    hit = rng.sample(range(len(oc["branches"])), rng.randint(1, len(oc["branches"])))
+    for k in hit:
+        bb = oc["branches"][k]["block"]
+        bb.insert(rng.randint(0, len(bb)), {"k": "call", "m": callee, "en": None, "arg": None})
+    ob = g.calls(0, 1, 0.0)
+    ob.insert(rng.randint(0, len(ob)), oc)
+    g.items.append({"k": "method", "name": outer, "ready": g.maybe_inp(0.4), "nx": 0, "block": ob})
+    _chain_above(g, rng, P, outer, [1, 1, 2], one_top=True)
+
+
+def _gen_guardcall(g: "_Gen", rng: random.Random, P: dict):
+    """the condition-hosting method is called from inside an FSM state / Switch case / If alternative written in the
+    body of a transaction (or of a wrapper method called by a transaction)"""
+    g.P = {**g.P, "p_nest": 0.0}
+    host = g.mname()
+    blk = g.calls(0, 1, 0.0)
+    blk.insert(rng.randint(0, len(blk)), g.cond(0))
+    g.items.append({"k": "method", "name": host, "ready": g.maybe_inp(0.5), "nx": 0, "block": blk})
+    form = rng.choice(["fsm", "fsm", "fsm", "switch", "if"])
+    nalt = rng.choice([1, 2, 2, 3])
+    alts = [g.calls(0, 1, 0.0) for _ in range(nalt)]
+    alts[rng.randrange(nalt)].append({"k": "call", "m": host, "en": g.maybe_inp(0.15), "arg": None})
+    if form == "if":
+        st = {"k": "if", "alts": [{"c": g.inp(), "items": alts[i]} for i in range(nalt)]}
+        if nalt > 1 and rng.random() < 0.4:
+            st["alts"][-1]["c"] = None
+    else:
+        sel = [g.inp() for _ in range(1 if nalt <= 2 else 2)]
+        if form == "switch":
+            st = {"k": "switch", "sel": sel, "cases": [{"pat": i, "items": alts[i]} for i in range(nalt)]}
+            if nalt > 1 and rng.random() < 0.4:
+                st["cases"][-1]["pat"] = None
+        else:
+            st = {"k": "fsm", "sel": sel, "states": [{"items": alts[i]} for i in range(nalt)]}
+    body = g.calls(0, 1, 0.2)
+    body.insert(rng.randint(0, len(body)), st)
+    if rng.random() < 0.3:  # the control structure is in a wrapper method
+        wn = g.mname()
+        g.items.append({"k": "method", "name": wn, "ready": g.maybe_inp(0.5), "nx": 0, "block": body})
+        body = [{"k": "call", "m": wn, "en": g.maybe_inp(0.3), "arg": None}]
+    g.items.append({"k": "trans", "name": g.tname(), "ready": g.maybe_inp(P["p_parent_ready"]), "block": body})
+
+
+def _chain_above(g: "_Gen", rng: random.Random, P: dict, host: str, link_choices: list, one_top: bool = False):
     nlinks = rng.choice(link_choices)
     cond_links = [rng.random() < 0.45 for _ in range(nlinks)]
     if not any(cond_links) and rng.random() < 0.85:
@@ -909,7 +1011,7 @@ def _chain_above(g: "_Gen", rng: random.Random, P: dict, host: str, link_choices
         wb.insert(rng.randint(0, len(wb)), {"k": "call", "m": callee, "en": (g.inp() if cond_links[lvl] else None), "arg": None})
         g.items.append({"k": "method", "name": wn, "ready": g.maybe_inp(0.5), "nx": 0, "block": wb})
         callee = wn
-    for k in range(rng.choice([1, 1, 2])):
+    for k in range(1 if one_top else rng.choice([1, 1, 2])):
         cb = g.calls(0, 1, 0.2)
         en = g.inp() if (cond_links[-1] if k == 0 else rng.random() < 0.4) else None
         cb.insert(rng.randint(0, len(cb)), {"k": "call", "m": callee, "en": en, "arg": None})
@@ -931,6 +1033,16 @@ def gen_c13(rng: random.Random, kind: str, P: Optional[dict] = None) -> dict:
         host = g.mname()
         n0, n1 = g.tname(), None
         inner = g.calls(0, 1, 0.0) if rng.random() < 0.5 else []
+        if rng.random() < 0.35:
+            # the nested transaction calls (through a plain method) another method that hosts a nested
+            # simultaneous transaction of its own
+            leaf2, mid, n2 = g.mname(), g.mname(), g.tname()
+            g.items.append({"k": "method", "name": leaf2, "ready": g.maybe_inp(0.4), "nx": 0, "block": [
+                {"k": "trans", "name": n2, "ready": g.maybe_inp(0.6), "block": (g.calls(0, 1, 0.0) if rng.random() < 0.5 else [])}]})
+            g.items.append({"k": "method", "name": mid, "ready": g.maybe_inp(0.4), "nx": 0,
+                            "block": [{"k": "call", "m": leaf2, "en": None, "arg": None}]})
+            g.simul.append([leaf2, n2])
+            inner.append({"k": "call", "m": mid, "en": None, "arg": None})
         if rng.random() < 0.5:
             n1 = g.tname()
             inner.insert(rng.randint(0, len(inner)), {"k": "trans", "name": n1, "ready": g.maybe_inp(0.6),
